@@ -68,6 +68,7 @@ m = {
    {"name": "fs-fault", "path": "/verif/sim", "serves_properties": ["C11"], "kind_free_text": "per-device-call fault enumeration over simulated histories"},
    {"name": "dir-media", "path": "/verif/sim", "serves_properties": ["C06","C17"], "kind_free_text": "generated / corrupted directory media read through the block-device seam"},
    {"name": "mount", "path": "/verif/sim", "serves_properties": ["C15"], "kind_free_text": "independent formatter geometries and stored-byte corruption of MBR / boot sector / FSInfo at mount"},
+]+[{"name": "sd-sim", "path": "/verif/sim", "serves_properties": ["C12","C13","C14"], "kind_free_text": "real SdCard driver against a byte-level simulated SD card on a simulated SPI bus with latency tape, adversary and protocol checker"},
  ] + EXTRA_ENGINES,
  "checks": checks,
  "not_applicable": [{"property_id": k, "reason": v} for k, v in sorted({**na, **pending}.items())],
